@@ -238,6 +238,13 @@ CloseOnce == srcClosed <= 1 /\ (Closable => (srcClosed = 1 <=> Live = {})) /\ (~
 \* a lock is never left held by a finished or idle child
 LockFree == (\A c \in Child : cs[c] # "insrc") => lock = 0
 
+\* progress: whenever some child is inside a call (waiting for the lock, inside the source, leaving the
+\* lock), the *system* can take a step -- no consumer has to act for the others to get on.  Every system
+\* step consumes something (a suspension, the lock queue, a pending exit), so this excludes deadlock and,
+\* the graph of system steps being acyclic, shows that every call returns under weak fairness.
+Pending(c) == cs[c] \in {"lockwait", "insrc", "exiting", "exitstop", "exitcancel", "exitfail"}
+NoStuck == (\E c \in Child : Pending(c)) => \E c \in Child : ENABLED (Grant(c) \/ Tick(c) \/ ExitStep(c))
+
 \* one line per generated transition: the label and the successor's projection
 EmitEdge == EdgeFile = "" \/
    CSVWrite("%1$s", <<ToJson([f |-> [cs |-> cs, recv |-> recv, p |-> srcPos, busy |-> srcBusy, closed |-> srcClosed, l |-> lock, buf |-> buf, rem |-> rem, reg |-> reg, nfail |-> nfail],
